@@ -19,6 +19,7 @@ import (
 	"strconv"
 	"strings"
 	"sync"
+	"syscall"
 	"time"
 
 	ltls "github.com/lesismal/llib/std/crypto/tls"
@@ -472,7 +473,14 @@ func runConn(sc scen, id, addr string, p connPlan) {
 		evs = append(evs, hlib.Ev{"ev": "end"})
 		emitBlock(id, attrs, evs)
 	}()
-	raw, err := net.Dial("tcp", addr)
+	d := net.Dialer{}
+	if p.SlowRead {
+		// a small receive window (set before the connect): what the server writes backs up in ITS user space quickly
+		d.Control = func(network, address string, rc syscall.RawConn) error {
+			return rc.Control(func(fd uintptr) { syscall.SetsockoptInt(int(fd), syscall.SOL_SOCKET, syscall.SO_RCVBUF, 8192) })
+		}
+	}
+	raw, err := d.Dial("tcp", addr)
 	if err != nil {
 		hlib.Fatal("dial %s: %v", addr, err)
 	}
